@@ -5,6 +5,7 @@
 use libfuzzer_sys::fuzz_target;
 
 fuzz_target!(|data: &[u8]| {
+    vcheck::fuzz_init();
     if let Err(f) = vcheck::props::fuzz_entry("C15", data) {
         if !f.sig.starts_with("harness-") {
             panic!("C15 violated: {} {}", f.sig, f.detail);
